@@ -52,6 +52,11 @@ type RunConfig struct {
 	SolverLog string
 	Deadline  time.Time
 	Verbose   bool
+	// FailFast stops the whole run at the first path that records a
+	// violation (development aid for mutant regressions; never used by the
+	// registered commands, whose evidence must describe a full exploration).
+	FailFast bool
+	stopAll  int32
 }
 
 func newExec(p *ssa.Program, h *Harness, cfg *RunConfig, wid int) (*Exec, error) {
@@ -105,6 +110,7 @@ func (ex *Exec) resetPath() {
 	ex.asciiKnown = map[*Term]bool{}
 	ex.clockLog = nil
 	ex.realClockReads = 0
+	ex.opaqueIPs = 0
 	// the literal index is rebuilt per path (a stale literal from a sibling
 	// path must never be taken as implied)
 	ex.pcLits = ex.pcLits[:0]
@@ -126,6 +132,9 @@ func (ex *Exec) explore(hr *HarnessResult, prefix []pick, cfg *RunConfig) {
 		if atomic.LoadInt32(&hr.failed) != 0 {
 			return
 		}
+		if cfg.FailFast && atomic.LoadInt32(&cfg.stopAll) != 0 {
+			return
+		}
 		if !cfg.Deadline.IsZero() && time.Now().After(cfg.Deadline) {
 			hr.addInconclusive("budget: wall-clock deadline reached")
 			return
@@ -137,6 +146,9 @@ func (ex *Exec) explore(hr *HarnessResult, prefix []pick, cfg *RunConfig) {
 		}
 		ex.runOnePath(hr)
 		ex.St.Paths++
+		if cfg.FailFast && len(ex.violations) > 0 {
+			atomic.StoreInt32(&cfg.stopAll, 1)
+		}
 		// backtrack
 		for len(ex.trail) > ex.minLen && len(ex.trail[len(ex.trail)-1].alts) == 0 {
 			ex.trail = ex.trail[:len(ex.trail)-1]
@@ -380,7 +392,7 @@ func RunHarnesses(p *Program, hs []*Harness, cfg *RunConfig) []*HarnessResult {
 	for _, r := range results {
 		sort.Slice(r.Violations, func(i, j int) bool { return r.Violations[i].ID < r.Violations[j].ID })
 		// vacuity: every expected id must have been reached
-		if atomic.LoadInt32(&r.failed) == 0 {
+		if atomic.LoadInt32(&r.failed) == 0 && !(cfg.FailFast && atomic.LoadInt32(&cfg.stopAll) != 0) {
 			for _, id := range r.H.ExpectIDs {
 				if r.Stats.Reached[id] == 0 {
 					r.Inconclusive = append(r.Inconclusive, "vacuity: assertion "+id+" was never reached")
